@@ -414,12 +414,13 @@ func C15(c *vk.Ctx) {
 	}
 	walks += c15ProvisionIntake(c)
 	// API level: first loads that fail (unreachable, garbage) and are made up for by a later pass, in the foreground and in the
-	// background, with and without signature verification
+	// background, with and without signature verification; lists signed by the sibling key are failed attempts under verify and
+	// accepted versions under verify_log, after which the location must go on being refreshed like any other
 	hubFocus(c, []HubCfg{
 		{Mode: "crl_only", Sig: "verify", Strict: false, Fetch: "background", Disk: false, TrustA: false, Conf: "none", Ocsp: "noaia"},
 		{Mode: "crl_only", Sig: "verify_log", Strict: false, Fetch: "background", Disk: true, TrustA: false, Conf: "url", Ocsp: "noaia"},
 		{Mode: "crl_only", Sig: "verify", Strict: false, Fetch: "actively", Disk: true, TrustA: true, Conf: "url", Ocsp: "noaia"},
-	}, c.Pick(420, 6000), func(d hubDoc) bool { return d.Signer == "A" && d.Q != "critext" }, RandomShape, predC15hub)
+	}, c.Pick(420, 6000), func(d hubDoc) bool { return (d.Signer == "A" || d.Signer == "S") && d.Q != "critext" }, RandomShape, predC15hub)
 	c.Set("traces_validated_against_impl", int64(walks))
 	c.Set("spec", fmt.Sprintf("Refresher.tla: V = {v1, v2}, I = %d, B = %d, per-instance finish timestamp, passes that last up to one time unit while holding the refresh mutex; invariant BoundedRefresh, liveness Live ([]<> refreshed) under weak fairness on the complete graph (no state constraint); all 16 phase pairs", refI, refB))
 	c.Set("rule", "a case is one edge (advance one time unit / tick of an instance with outcome ok or fail) executed on two real validators in one process: time passes by shifting the refresh-finish timestamp(s) back through a verif accessor, a tick is one updateCRLs(false) call in its own goroutine started as soon as the instance is due; a pass that runs is parked at the crl.update.run hook inside the refresh mutex until the specification's TickEnd; the skip/run decision comes from the hook; predicates: time since an instance last re-fetched > B*I; a pass that ran did not fetch a known location (configured url, CDP); after a successful pass the newly published CRL is not in force; configured CRLs not in force when Provision returns")
